@@ -111,6 +111,26 @@ def cases(rng, quick, gr):
                 return "variables after the loop %s differ from the unrolled script's %s (loop variable visible?)" % (sorted(pa.variables), sorted(pb.variables))
             return None
         yield {"tag": "loop-%s" % ty, "text": t_loop, "pred": pred, "input": {"check": "unroll", "text": t_loop, "unrolled": t_unr}}
+    # the listed values are evaluated once, before the first iteration: a loop variable named like an earlier variable that the
+    # list itself mentions (the values are those computed with the OUTER variable)
+    for nm, v0 in (("k", 1), ("m", 2), ("idx", 0)):
+        for items, vals in (("[%s, %s + 2, %s + 4]", [v0, v0 + 2, v0 + 4]), ("(%s, %s * 2 + 1, %s)", [v0, v0 * 2 + 1, v0]), ("%s + 1, %s + 1", [v0 + 1, v0 + 1])):
+            hdr = items.replace("%s", nm)
+            body = ["Dgate(0.5 * {x} + 1, phi={x}) | {x}", "MeasureX | [{x}, 9]"]
+            t_loop = HDR + "int %s = %d\nVac | %s\nfor int %s in %s\n" % (nm, v0, nm, nm, hdr) + "\n".join("    " + b.replace("{x}", nm) for b in body) + "\nVac | 8\n"
+            t_unr = HDR + "int %s = %d\nVac | %s\n" % (nm, v0, nm) + "\n".join(b.replace("{x}", "(%d)" % v) for v in vals for b in body) + "\nVac | 8\n"
+
+            def pred(impl, a=t_loop, b=t_unr):
+                try:
+                    pa = impl.loads(a)
+                except Exception as e:  # noqa: BLE001
+                    return "a valid loop script was refused (%s: %s)" % (type(e).__name__, str(e)[:100])
+                da, db = ops_digest(pa), ops_digest(impl.loads(b))
+                if da != db:
+                    i = next((k for k, (u, v) in enumerate(zip(da, db)) if u != v), min(len(da), len(db)))
+                    return "loop over values that mention the shadowed variable differs from its unrolling at operation %d: %s vs %s" % (i, da[i] if i < len(da) else None, db[i] if i < len(db) else None)
+                return None
+            yield {"tag": "shadowed-name-in-list", "pred": pred, "key": t_loop, "input": {"check": "unroll", "text": t_loop, "unrolled": t_unr}}
     # bad listed values: must be refused
     bad = [("int", '"a"'), ("int", "1.5"), ("int", "2j"), ("float", '"x"'), ("float", "1j"), ("str", "1"), ("str", "True"),
            ("bool", "2"), ("bool", '"t"'), ("int", '"5"'), ("float", '"1.5"'), ("complex", '"1"')]
